@@ -42,7 +42,7 @@ func aggressiveNorm(values []string) string {
 	flush := func() {
 		m := cur.String()
 		cur.Reset()
-		m = strings.ToLower(m)
+		m = asciiLower(m) // (ASCII only: bytes that are not UTF-8, and letters like U+212A, stay what they are)
 		m = strings.Map(func(r rune) rune {
 			if r == ' ' || r == '\t' {
 				return -1
